@@ -143,6 +143,14 @@ func genWriteTarget(t *sim.Tape) writeTarget {
 		return writeTarget{"Metrics.Write(" + m.FontName + ")", func(w *sim.SimWriter) error { return m.Write(w) }}
 	}
 	f := gen.GenFont(t, 10)
+	if t.Bool(1, 8) {
+		// a large font: the encrypted section spans many 512-byte blocks and
+		// hundreds of hex lines, so block and line boundaries meet
+		f = gen.GenFont(t, 60)
+		for len(f.Glyphs) < 70 {
+			f.Glyphs[fmt.Sprintf("big%d", len(f.Glyphs))] = gen.GenGlyph(t, true)
+		}
+	}
 	k := t.Choose(5)
 	if k == 4 {
 		return writeTarget{"Font.WritePDF(" + gen.DescribeFont(f) + ")", func(w *sim.SimWriter) error { _, _, err := f.WritePDF(w); return err }}
